@@ -14,6 +14,10 @@ hmod!(pub(crate) bfs, "bfs.rs");
 hmod!(pub(crate) explore, "explore.rs");
 #[cfg(feature = "shuttle")]
 hmod!(pub(crate) sched, "sched.rs");
+#[cfg(feature = "shuttle")]
+hmod!(pub(crate) c13s, "c13s.rs");
+#[cfg(feature = "shuttle")]
+hmod!(pub(crate) c19s, "c19s.rs");
 #[cfg(not(feature = "shuttle"))]
 hmod!(pub(crate) fault, "fault.rs");
 #[cfg(not(feature = "shuttle"))]
